@@ -10,6 +10,9 @@ import pickle
 import pickletools
 import random
 import sys
+import os as _os
+sys.path.insert(0, _os.path.dirname(_os.path.abspath(__file__)))
+from _report import spread  # noqa: E402
 import types
 
 import fickling.fickle as fk
@@ -282,4 +285,4 @@ for name, cls in sorted(fk.OPCODES_BY_NAME.items()):
 
 if only:
     fails = [f for f in fails if f["kind"] == only]
-print(json.dumps({"bounded": True, "counts": counts, "n_failures": len(fails), "failures": fails[:400]}))
+print(json.dumps({"bounded": True, "counts": counts, "n_failures": len(fails), "failures": spread(fails, lambda f: (f["kind"], f.get("note") or f["through"]), per=6, cap=600)}))
